@@ -2,7 +2,7 @@
    ExtrOcamlBasic only: bool, option, list, prod, unit, sumbool map to OCaml's; Z, N, positive,
    nat stay the extracted inductives.  No Extract Constant of ours. *)
 From Coq Require Import Extraction ExtrOcamlBasic.
-From KV Require Import DetectProofs Base FP Params ParamsProofs Weave WeaveProofs WeaveCheck Sort Detect Api.
+From KV Require Import DetectProofs Base FP Params ParamsProofs Weave WeaveProofs WeaveCheck Sort Detect Api Cmp.
 Extraction Language OCaml.
 Set Extraction Optimize.
 Extraction "../ocaml/kvmodel.ml"
@@ -13,4 +13,5 @@ Extraction "../ocaml/kvmodel.ml"
   essential_check with_ranks sort_len_name sort_rank convert alphabets nthZ
   alpha_defDNA alpha_redPROTEIN alpha_ambPROTEIN histogram detect_sums detect_alphabet bits_of_f64
   exact_margin total_letters class_count only_po only_u is_nuc_letter
+  compare_model ref_aligned
   kpath_wfb ops_fitb integrity_b subalignment_b strip_allgap degap w_gaps w_sip.
